@@ -1,4 +1,4 @@
-From QV Require Import model.Base model.Lang model.Sem proofs.SemProofs proofs.ScopeProofs proofs.FrameProofs model.Overload proofs.OverloadProofs props.C13.
+From QV Require Import model.Base model.Lang model.Sem proofs.SemProofs proofs.ScopeProofs proofs.FrameProofs model.Overload proofs.OverloadProofs model.Types spec.Typing model.Callback proofs.CallbackProofs props.C13.
 Open Scope Z_scope.
 Check (C13_partial_effects_in_source_order : forall names this st o1 i1 o2 i2 n1 n2 st',
   object_named names o1 = Some i1 -> object_named names o2 = Some i2 ->
@@ -27,3 +27,15 @@ Check (eq_refl : comparable = fun x y => extends x y = true \/ extends y x = tru
 Check (eq_refl : extends = fun known m => (N.eqb (m_kind known) (m_kind m) && String.eqb (m_ret known) (m_ret m) && prefixb (m_args known) (m_args m))%bool).
 Check (eq_refl : uniquify [ {| m_kind := 0; m_ret := "void"; m_args := [] |}; {| m_kind := 0; m_ret := "void"; m_args := ["int"] |}; {| m_kind := 0; m_ret := "void"; m_args := ["QString"] |} ]%string = None).
 Check (eq_refl : callback_verdict [ {| m_kind := 0; m_ret := "void"; m_args := ["int"] |}; {| m_kind := 0; m_ret := "void"; m_args := [] |}; {| m_kind := 0; m_ret := "void"; m_args := ["int"; "bool"] |} ]%string = VConnect ["int"; "bool"]%string).
+Check (C13_handler_name_denotes_one_signal : forall name s, callback_to_signal_name name = Some s <->
+  exists c r, name = String "o" (String "n" (String c r)) /\ is_ascii_upper c = true /\ s = String (to_lower c) r).
+Check (C13_handler_names_are_injective : forall a b s, callback_to_signal_name a = Some s -> callback_to_signal_name b = Some s -> a = b).
+Check (C13_every_small_signal_has_its_handler : forall c r, is_ascii_lower c = true -> callback_to_signal_name (handler_name (String c r)) = Some (String c r)).
+Check (C13_parameters_accepted_iff_leading_arguments_fit : forall E args params, verify_params E args params = POk <->
+  (List.length params <= List.length args)%nat /\
+  forall k, (k < List.length params)%nat -> spec_assignable E (nth k params T_VOID) (DConcrete (nth k args T_VOID)) = true).
+Check (C13_too_many_parameters_are_refused : forall E args params, verify_params E args params = PTooMany <-> (List.length args < List.length params)%nat).
+Check (eq_refl : callback_to_signal_name "onClicked" = Some "clicked"%string).
+Check (eq_refl : callback_to_signal_name "onclicked" = None).
+Check (eq_refl : is_ascii_upper = fun a => (Nat.leb 65 (nat_of_ascii a) && Nat.leb (nat_of_ascii a) 90)%bool).
+Check (eq_refl : to_lower = fun a => if is_ascii_upper a then ascii_of_nat (nat_of_ascii a + 32) else a).
